@@ -1,6 +1,6 @@
 (* C07: reflection over the generated schema files and concrete witnesses. *)
 From MF Require Import Lib.Base Lib.Json Lib.PyDict Gen.Schemas Model.SchemaStore Model.Schema
-  Model.Validator Spec.Versioned Spec.Draft4 Proofs.C09 Proofs.C07.
+  Model.Validator Spec.Versioned Spec.Draft4 Proofs.C09 Proofs.C07 Proofs.C07Paths.
 Open Scope Z_scope.
 
 (* ------------------------------------------------------------------ [F] the shipped schemas are well-formed for the model *)
@@ -41,22 +41,26 @@ Lemma hidden_names :
   existsb (fun k => rx_search hidden_pat k) [Str "type"; Str "__Type__"; Str "__x"; Str "____"; Str "__a_b__"] = false.
 Proof. split; vm_compute; reflexivity. Qed.
 
-(* ------------------------------------------------------------------ [R] validate raises *)
-(* mappyfile.loads("MAP SIZE 10.5 20 END") *)
+(* ------------------------------------------------------------------ the former counterexample *)
+(* mappyfile.loads("MAP SIZE 10.5 20 END"): before commit 4abf0be validate raised
+   TypeError on it; now the error inside the list-valued keyword is reported
+   under the keyword that holds the list *)
 Definition size_doc : value :=
   VDict (DCI true) [(Str "__type__", VStr (Str "map")); (Str "size", VList [VFloat 105 (-1); VInt 20])].
 
-Lemma size_doc_raises : fst (validate schema_files size_doc (Str "map") None init_state) = Err PyTypeError.
+Lemma size_doc_message :
+  match fst (validate schema_files size_doc (Str "map") None init_state) with
+  | Ok msgs => map (fun m => (msg_field m (Str "path"), msg_field m (Str "message"))) msgs
+  | Err _ => []
+  end
+  = [(Some (VList [VStr (Str "size"); VInt 0]), Some (VStr (Str "ERROR: Invalid value in SIZE")))].
 Proof. vm_compute. reflexivity. Qed.
 
-(* the reason: the error path ends in a list index below a number *)
-Lemma size_doc_error :
-  ierr (expand schema_files schema_map) (to_json (convert_lowercase size_doc))
-  = [mk_verr [PKey (Str "size"); PIdx 0%N] (Str "type")] /\
-  target size_doc (mk_verr [PKey (Str "size"); PIdx 0%N] (Str "type")) = Ok (VFloat 105 (-1), None).
-Proof. split; vm_compute; reflexivity. Qed.
+Lemma size_doc_target :
+  target size_doc (mk_verr [PKey (Str "size"); PIdx 0%N] (Str "type")) = Ok (size_doc, Some (Str "size")).
+Proof. vm_compute. reflexivity. Qed.
 
-(* the guard is inhabited by faults outside list-valued keywords, at depth:
+(* faults at depth:
    MAP LAYER TYPE bad CLASS STYLE WIDTH "x" END END END END - both messages *)
 Definition deep_style : value :=
   VDict (DCI true) [(Str "__type__", VStr (Str "style")); (Str "width", VBool true); (Str "nosuch", VInt 1)].
@@ -77,3 +81,6 @@ Lemma deep_fault_messages :
      Some (VStr (Str "ERROR: Invalid value in WIDTH"));
      Some (VStr (Str "ERROR: Invalid value in TYPE"))].
 Proof. vm_compute. reflexivity. Qed.
+
+Lemma example_docs_root_ok : root_ok size_doc = true /\ root_ok deep_fault_doc = true.
+Proof. split; vm_compute; reflexivity. Qed.
